@@ -9,7 +9,7 @@ Open Scope Z_scope.
 
 Definition answer_eqb (a b : answer) : bool :=
   match a, b with
-  | AFast x, AFast y => x =? y
+  | AFast x, AFast y => oz_eqb x y
   | ARefused x, ARefused y => err_eqb x y
   | APanic, APanic | AQueued, AQueued | AStopped, AStopped => true
   | AStep i e f, AStep i' e' f' => (i =? i') && event_eqb e e' && opt_eqb res_eqb f f'
@@ -18,7 +18,7 @@ Definition answer_eqb (a b : answer) : bool :=
 Lemma answer_eqb_eq a b : answer_eqb a b = true -> a = b.
 Proof.
   destruct a, b; cbn; try discriminate; intros H; try reflexivity.
-  - apply Z.eqb_eq in H. subst. reflexivity.
+  - apply oz_eqb_eq in H. subst. reflexivity.
   - apply err_eqb_eq in H. subst. reflexivity.
   - apply andb_prop in H as [H H3]. apply andb_prop in H as [H1 H2].
     apply Z.eqb_eq in H1. apply event_eqb_eq in H2. apply (opt_eqb_eq res_eqb res_eqb_eq) in H3. subst. reflexivity.
@@ -26,7 +26,7 @@ Qed.
 
 (* one observed label: the label, what it let the observer see, and afterwards - key by key of the universe - what
    the group's caches and the store hold *)
-Definition item := (glabel * answer * list (option Z) * list (option Z))%type.
+Definition item := (glabel * answer * list (option val) * list val)%type.
 Definition it_label (it : item) : glabel := fst (fst (fst it)).
 Definition it_answer (it : item) : answer := snd (fst (fst it)).
 
@@ -44,7 +44,7 @@ Fixpoint conc_match (c : gcfg) (deep : nat) (univ : list Z) (seen : list Z) (g :
           match l with GCall j => mem (key_of (j_op j)) univ | _ => true end
           && match l, a' with GCall j, AQueued => negb (mem (j_id j) seen) | _, _ => true end
           && answer_eqb a' a
-          && list_eqb oz_eqb (map (mcache_at c g') univ) ca && list_eqb oz_eqb (map (mstore_at c g') univ) st
+          && list_eqb ov_eqb (map (mcache_at c g') univ) ca && list_eqb oz_eqb (map (mstore_at c g') univ) st
           && conc_match c deep univ (match l, a' with GCall j, AQueued => j_id j :: seen | _, _ => seen end) g' rest
       end
   end.
@@ -55,8 +55,8 @@ Record mon := mkMon {
   m_done : list Z;                    (* ids of the jobs that have completed *)
   m_started : list Z;                 (* ids of the jobs that have made a call *)
   m_store_ids : list (Z * Z);         (* (key, id) of every store callback so far, in order *)
-  m_committed : list (option Z);      (* per key: the store's value after the last completed operation on it *)
-  m_prev_store : list (option Z)      (* per key: the store before the label at hand *)
+  m_committed : list val;             (* per key: the store's value after the last completed operation on it *)
+  m_prev_store : list val             (* per key: the store before the label at hand *)
 }.
 
 Fixpoint find_job (id : Z) (js : list job) : option job :=
@@ -72,10 +72,10 @@ Definition inflight_key (queued : list job) (done : list Z) (k : Z) : bool :=
 
 (* between two labels: a cached value is the store's value or - only for a key with an operation pending - the value
    the store held after the last completed operation on that key *)
-Fixpoint coherent3 (univ : list Z) (infl : Z -> bool) (ca st cm : list (option Z)) : bool :=
+Fixpoint coherent3 (univ : list Z) (infl : Z -> bool) (ca : list (option val)) (st cm : list val) : bool :=
   match univ, ca with
   | k :: univ', Some v :: ca' =>
-      (oz_eqb (hd None st) (Some v) || (infl k && oz_eqb (hd None cm) (Some v)))
+      (oz_eqb (hd None st) v || (infl k && oz_eqb (hd None cm) v))
       && coherent3 univ' infl ca' (tl st) (tl cm)
   | _ :: univ', None :: ca' => coherent3 univ' infl ca' (tl st) (tl cm)
   | _, [] => true
@@ -92,7 +92,7 @@ Definition item_holds (univ : list Z) (m : mon) (it : item) : bool * mon :=
   | GCall j, AFast v =>
       let m' := mkMon (m_queued m) (m_done m) (m_started m) (m_store_ids m) (m_committed m) st in
       (* the fast path answers with what the cache holds; coherent3 relates that to the store *)
-      (match j_op j with OGet k => oz_eqb (at_key univ ca k) (Some v) | _ => false end
+      (match j_op j with OGet k => ov_eqb (at_key univ ca k) (Some v) | _ => false end
        && coherent3 univ (inflight_key (m_queued m') (m_done m')) ca st (m_committed m'), m')
   | GCall _, ARefused _ | GCall _, APanic | GStop, AStopped =>
       let m' := mkMon (m_queued m) (m_done m) (m_started m) (m_store_ids m) (m_committed m) st in
@@ -178,12 +178,12 @@ Proof.
   apply Z.eqb_eq in E. exfalso. apply H1. rewrite E. apply in_map. exact Hin.
 Qed.
 
-Lemma set_at_map (f : Z -> option Z) univ k v :
+Lemma set_at_map (f : Z -> val) univ k v :
   set_at univ (map f univ) k v = map (fun x => if x =? k then v else f x) univ.
 Proof. induction univ as [|a r IH]; [reflexivity|]. cbn [map set_at]. rewrite IH. reflexivity. Qed.
 
-Lemma coherent3_map (ca st cm : Z -> option Z) infl univ :
-  (forall k v, In k univ -> ca k = Some v -> st k = Some v \/ (infl k = true /\ cm k = Some v)) ->
+Lemma coherent3_map (ca : Z -> option val) (st cm : Z -> val) infl univ :
+  (forall k v, In k univ -> ca k = Some v -> st k = v \/ (infl k = true /\ cm k = v)) ->
   coherent3 univ infl (map ca univ) (map st univ) (map cm univ) = true.
 Proof.
   induction univ as [|a r IH]; intros H; [reflexivity|]. cbn [map coherent3 hd tl].
@@ -392,7 +392,7 @@ Proof.
   - inversion Hm; subst. exact I.
   - destruct (nextf fs) as [f fs1]. destruct (s_load (wsr s) f k0). inversion Hm; subst. exact I.
   - destruct (nextf fs) as [f fs1]. destruct (s_add (wsr s) f k0 d). inversion Hm; subst. exact I.
-  - destruct Hs as (_ & -> & Hpre & _). destruct (nextf fs) as [f fs1]. destruct (s_upd (wsr s) f k d). inversion Hm; subst. exact Hpre.
+  - destruct Hs as (_ & -> & Hpre & _). destruct (nextf fs) as [f fs1]. destruct (s_upd (wsr s) f k d). inversion Hm; subst. first [exact Hpre | reflexivity].
   - destruct Hs as (_ & -> & Hpre & _). destruct (nextf fs) as [f fs1]. destruct (s_upsert (wsr s) f k d). inversion Hm; subst.
     cbn [pre_good]. destruct pre as [x|]; [apply (Hpre x); reflexivity | exact I].
   - destruct (nextf fs) as [f fs1]. destruct (s_delete (wsr s) f k0). inversion Hm; subst. exact I.
@@ -437,7 +437,7 @@ Record rel (g : mach) (m : mon) (seen : list Z) (tr : list (glabel * answer)) : 
 Lemma coh_all g queued done : minv g ->
   (forall w j, In j (wjobs (g w)) -> In j queued /\ ~ In (j_id j) done) ->
   forall k v, mcache_at c g k = Some v ->
-    mstore_at c g k = Some v \/ (inflight_key queued done k = true /\ mcommitted_at c g k = Some v).
+    mstore_at c g k = v \/ (inflight_key queued done k = true /\ mcommitted_at c g k = v).
 Proof.
   intros Hm Hin k v Hc. destruct (winv_coherent _ k v (Hm (loc_of c k)) Hc) as [A|[(r & Hr & Hk) B]]; [left; exact A|].
   right. split; [|exact B]. unfold inflight_key. apply existsb_exists. exists (r_job r).
@@ -705,8 +705,7 @@ Proof.
       - (* fast path: the answer is what the cache holds *)
         destruct (Ffast v eq_refl) as (k & Ho & Hv). rewrite Ho, Hc, andb_true_r. unfold jkey in Hkey. rewrite Ho in Hkey. cbn [key_of] in Hkey.
         rewrite at_key_map by exact Hkey. unfold mcache_at. fold (cview (k_st (updm g wj s' (loc_of c k))) k).
-        assert (Hwk : loc_of c k = wj) by (unfold wj; rewrite Ho; reflexivity). rewrite Hwk, updm_same, Hv, oz_eqb_refl.
-        reflexivity.
+        assert (Hwk : loc_of c k = wj) by (unfold wj; rewrite Ho; reflexivity). rewrite Hwk, updm_same, Hv. unfold ov_eqb. cbn [opt_eqb]. rewrite oz_eqb_refl. reflexivity.
       - (* a step answer cannot come from a call *)
         exfalso. unfold wcall in Ew.
         assert (Henq : forall s1 i e f, enqueue deep (g wj) j = (s1, AStep i e f) -> False).
@@ -792,7 +791,7 @@ Proof.
     apply andb_prop in Hc as [Hc Hrest]. apply andb_prop in Hc as [Hc Hst]. apply andb_prop in Hc as [Hc Hca].
     apply andb_prop in Hc as [Hc Ha]. apply andb_prop in Hc as [Hkey Hfresh].
     apply answer_eqb_eq in Ha. subst a1.
-    apply (list_eqb_eq _ oz_eqb_eq) in Hca. apply (list_eqb_eq _ oz_eqb_eq) in Hst. subst ca st.
+    apply (list_eqb_eq _ ov_eqb_eq) in Hca. apply (list_eqb_eq _ oz_eqb_eq) in Hst. subst ca st.
     assert (Hkey' : match l with GCall j => In (jkey j) univ | _ => True end).
     { destruct l; try exact I. apply mem_true. exact Hkey. }
     assert (Hfresh' : match l, a with GCall j, AQueued => ~ In (j_id j) seen | _, _ => True end).
